@@ -642,6 +642,11 @@ impl LyNative for ListSort {
 
     hooks.pop_roots(1);
 
+    // an error raised by the comparator ends the sort
+    if let Some(failure) = failure {
+      return failure;
+    }
+
     Call::Ok(val!(list))
   }
 }
